@@ -146,7 +146,7 @@ Proof. reflexivity. Qed.
 
 (* a statement that does not start with an identifier *)
 Lemma dispatch_kw : forall (s: pstate) t l, Up s (t :: l) -> kind_eqb (tk t) K_ID = false ->
-  exists s1, Up s1 (t :: l) /\ forall f,
+  exists s1, Up s1 (t :: l) /\ Ran P s s1 0 /\ forall f,
     p_statement P (S f) s =
     (match sclass (tk t) with
      | 0 => p_labeled_statement P f | 2 => p_compound_statement P f | 3 => p_selection_statement P f
@@ -154,7 +154,7 @@ Lemma dispatch_kw : forall (s: pstate) t l, Up s (t :: l) -> kind_eqb (tk t) K_I
      | 7 => bind P (p_static_assert P f) (fun l => match l with x :: _ => ret P x | [] => crash P CK_Index end)
      | _ => p_expression_statement P f end) s1.
 Proof.
-  intros s t l HU Hid. destruct (peek_kind_up P s t l HU) as [s1 [H1 [HU1 _]]]. exists s1. split; [exact HU1|]. intros f.
+  intros s t l HU Hid. destruct (peek_kind_up P s t l HU) as [s1 [H1 [HU1 HC1]]]. exists s1. split; [exact HU1|]. split; [cost_tac|]. intros f.
   rewrite stmt_eq. unfold bind at 1. rewrite H1.
   unfold sclass. cbn [okind_is] in *. rewrite Hid.
   destruct (kind_eqb (tk t) K_CASE || kind_eqb (tk t) K_DEFAULT); [reflexivity|].
@@ -169,10 +169,10 @@ Qed.
 
 (* an expression statement that starts with an identifier: the label look-ahead finds no colon *)
 Lemma dispatch_id : forall (s: pstate) t t2 l, Up s (t :: t2 :: l) -> kind_eqb (tk t) K_ID = true -> kind_eqb (tk t2) K_COLON = false ->
-  exists s1, Up s1 (t :: t2 :: l) /\ forall f, p_statement P (S f) s = p_expression_statement P f s1.
+  exists s1, Up s1 (t :: t2 :: l) /\ Ran P s s1 0 /\ forall f, p_statement P (S f) s = p_expression_statement P f s1.
 Proof.
-  intros s t t2 l HU Hid Hc. destruct (peek_kind_up P s t _ HU) as [s1 [H1 [HU1 _]]].
-  destruct (peek2_up P s1 t t2 l HU1) as [s2 [H2 [HU2 _]]]. exists s2. split; [exact HU2|]. intros f.
+  intros s t t2 l HU Hid Hc. destruct (peek_kind_up P s t _ HU) as [s1 [H1 [HU1 HC1]]].
+  destruct (peek2_up P s1 t t2 l HU1) as [s2 [H2 [HU2 HC2]]]. exists s2. split; [exact HU2|]. split; [cost_tac|]. intros f.
   assert (Ek: tk t = K_ID) by (apply kind_eqb_eq; exact Hid).
   rewrite stmt_eq. unfold bind at 1. rewrite H1. rewrite Ek.
   change (okind_is (Some K_ID) K_CASE || okind_is (Some K_ID) K_DEFAULT) with false. cbv iota.
@@ -182,9 +182,9 @@ Qed.
 
 (* a sub-statement position: no pragma in front *)
 Lemma pcs_stmt : forall (s: pstate) t l, Up s (t :: l) -> (okind_is (Some (tk t)) K_PPPRAGMA || okind_is (Some (tk t)) K_uPRAGMA) = false ->
-  exists s0, Up s0 (t :: l) /\ forall f, p_pragmacomp_or_statement P (S f) s = p_statement P f s0.
+  exists s0, Up s0 (t :: l) /\ Ran P s s0 0 /\ forall f, p_pragmacomp_or_statement P (S f) s = p_statement P f s0.
 Proof.
-  intros s t l HU Hpr. destruct (peek_kind_up P s t l HU) as [s0 [H0 [HU0 _]]]. exists s0. split; [exact HU0|]. intros f.
+  intros s t l HU Hpr. destruct (peek_kind_up P s t l HU) as [s0 [H0 [HU0 HC0]]]. exists s0. split; [exact HU0|]. split; [cost_tac|]. intros f.
   rewrite pcs_eq. unfold bind at 1. rewrite H0. rewrite Hpr. reflexivity.
 Qed.
 
@@ -250,21 +250,21 @@ Definition sestart (k: kind) : bool := kind_in k tbl_STARTS_EXPRESSION.
 Lemma expropt_some : forall kx X c fs co, X = VNode c fs co -> ExprS P kx X ->
   (exists k v rest, kx = (k, v) :: rest /\ sestart k = true) ->
   forall (s: pstate) le (stop: tok) l0, Spell le kx -> Up s (le ++ stop :: l0) -> estop (tk stop) = true ->
-  exists f0 N s', (forall f, f0 <= f -> p_expression_opt P f s = Ok (N, s')) /\ Up s' (stop :: l0) /\ strip N = X /\ N <> VNone.
+  exists f0 N s', (forall f, f0 <= f -> p_expression_opt P f s = Ok (N, s')) /\ Up s' (stop :: l0) /\ strip N = X /\ N <> VNone /\ Ran P s s' (length le).
 Proof.
   intros kx X c fs co EX HE [k [v [rest [Ek Hk]]]] s le stop l0 HS HU Hst.
   pose proof HS as HS0. rewrite Ek in HS. destruct (RoundTrip.Spell_cons_inv P _ _ _ _ HS) as [t [tl [El [Hkt [_ _]]]]]. subst le.
-  cbn [app] in HU. destruct (peek_kind_up P s t _ HU) as [s1 [H1 [HU1 _]]].
-  destruct (HE s1 (t :: tl) stop l0 HS0 HU1 Hst) as [f0 [N [s2 [H2 [HU2 [HN _]]]]]].
-  exists (S f0), N, s2. split; [|split; [exact HU2|split; [exact HN|]]].
+  cbn [app] in HU. destruct (peek_kind_up P s t _ HU) as [s1 [H1 [HU1 HC1]]].
+  destruct (HE s1 (t :: tl) stop l0 HS0 HU1 Hst) as [f0 [N [s2 [H2 [HU2 [HN HL2]]]]]].
+  exists (S f0), N, s2. split; [|split; [exact HU2|split; [exact HN|split; [|cost_tac]]]].
   - intros f Hf. destruct f as [|f]; [lia|]. rewrite expropt_eq. unfold bind at 1. unfold starts_expression. unfold bind at 1. rewrite H1.
     unfold ret at 1. cbn [okind_in]. rewrite Hkt. unfold sestart in Hk. rewrite Hk. apply H2. lia.
   - intros E. rewrite E, EX in HN. discriminate HN.
 Qed.
 Lemma expropt_none : forall (s: pstate) (t: tok) l, Up s (t :: l) -> sestart (tk t) = false ->
-  exists s1, (forall f, p_expression_opt P (S f) s = Ok (VNone, s1)) /\ Up s1 (t :: l).
+  exists s1, (forall f, p_expression_opt P (S f) s = Ok (VNone, s1)) /\ Up s1 (t :: l) /\ Ran P s s1 0.
 Proof.
-  intros s t l HU Hk. destruct (peek_kind_up P s t _ HU) as [s1 [H1 [HU1 _]]]. exists s1. split; [|exact HU1].
+  intros s t l HU Hk. destruct (peek_kind_up P s t _ HU) as [s1 [H1 [HU1 HC1]]]. exists s1. split; [|split; [exact HU1|split; [cost_tac|cost_tac]]].
   intros f. rewrite expropt_eq. unfold bind at 1. unfold starts_expression. unfold bind at 1. rewrite H1. unfold ret at 1. cbn [okind_in].
   unfold sestart in Hk. rewrite Hk. reflexivity.
 Qed.
@@ -272,7 +272,7 @@ Qed.
 (* ---- the statement level ---- *)
 Definition StmtL (run: nat -> M P (ParserBase.node P)) (kvs: list (kind * str)) (X: value unit) (op: bool) : Prop :=
   forall (s: pstate) le (stop: tok) l0, Spell le kvs -> Up s (le ++ stop :: l0) -> (op = true -> kind_eqb (tk stop) K_ELSE = false) ->
-  exists f0 N s', (forall f, f0 <= f -> run f s = Ok (N, s')) /\ Up s' (stop :: l0) /\ strip N = X.
+  exists f0 N s', (forall f, f0 <= f -> run f s = Ok (N, s')) /\ Up s' (stop :: l0) /\ strip N = X /\ Ran P s s' (length le).
 Definition StmtS := StmtL (p_pragmacomp_or_statement P).     (* a sub-statement position *)
 Definition StmtS0 := StmtL (p_statement P).                   (* a block item *)
 
@@ -283,9 +283,9 @@ Lemma s0_to_s : forall kvs X op, nopragma kvs -> StmtS0 kvs X op -> StmtS kvs X 
 Proof.
   intros kvs X op [k [v [rest [Ek Hnp]]]] H0 s le stop l0 HS HU Hop.
   pose proof HS as HS0. rewrite Ek in HS. destruct (RoundTrip.Spell_cons_inv P _ _ _ _ HS) as [t [tl [El [Hk [_ _]]]]]. subst le.
-  cbn [app] in HU. rewrite <- Hk in Hnp. destruct (pcs_stmt s t _ HU Hnp) as [s0 [HU0 Hd]].
-  destruct (H0 s0 (t :: tl) stop l0 HS0 HU0 Hop) as [f0 [N [s1 [H1 [HU1 HN]]]]].
-  exists (S f0), N, s1. split; [|split; [exact HU1|exact HN]]. intros f Hf. destruct f as [|f]; [lia|]. rewrite Hd. apply H1. lia.
+  cbn [app] in HU. rewrite <- Hk in Hnp. destruct (pcs_stmt s t _ HU Hnp) as [s0 [HU0 [HCd Hd]]].
+  destruct (H0 s0 (t :: tl) stop l0 HS0 HU0 Hop) as [f0 [N [s1 [H1 [HU1 [HN HL1]]]]]].
+  exists (S f0), N, s1. split; [|split; [exact HU1|split; [exact HN|cost_tac]]]. intros f Hf. destruct f as [|f]; [lia|]. rewrite Hd. apply H1. lia.
 Qed.
 
 (* what the first tokens of an expression statement must look like *)
@@ -296,7 +296,7 @@ Definition good2 (kvs: list (kind * str)) : Prop :=
     (kind_eqb k K_ID = true -> exists k2 v2 r2, rest = (k2, v2) :: r2 /\ kind_eqb k2 K_COLON = false).
 
 Lemma dispatch_expr : forall kvs (s: pstate) le rest, Spell le kvs -> good2 kvs -> Up s (le ++ rest) ->
-  exists s1, Up s1 (le ++ rest) /\ forall f, p_statement P (S f) s = p_expression_statement P f s1.
+  exists s1, Up s1 (le ++ rest) /\ Ran P s s1 0 /\ forall f, p_statement P (S f) s = p_expression_statement P f s1.
 Proof.
   intros kvs s le rest HS [k [v [rest0 [Ek [Hes Hid]]]]] HU. subst kvs.
   destruct (RoundTrip.Spell_cons_inv P _ _ _ _ HS) as [t [tl [-> [Hkt [_ HStl]]]]]. cbn [app] in HU |- *.
@@ -307,13 +307,13 @@ Proof.
     destruct (RoundTrip.Spell_cons_inv P _ _ _ _ HStl) as [t2 [tl2 [-> [Hk2' [_ _]]]]]. cbn [app] in HU |- *.
     apply dispatch_id; [exact HU|rewrite Hkt; exact Eid|rewrite Hk2'; exact Hk2].
   - assert (Hidt: kind_eqb (tk t) K_ID = false) by (rewrite Hkt; exact Eid).
-    destruct (dispatch_kw s t _ HU Hidt) as [s1 [HU1 E]]. exists s1. split; [exact HU1|]. intros f. rewrite E. rewrite Hkt, Hcl. reflexivity.
+    destruct (dispatch_kw s t _ HU Hidt) as [s1 [HU1 [HCd E]]]. exists s1. split; [exact HU1|]. split; [exact HCd|]. intros f. rewrite E. rewrite Hkt, Hcl. reflexivity.
 Qed.
 
 Lemma s_expr : forall kx X c fs co, X = VNode c fs co -> ExprS P kx X -> good2 (kx ++ [kw K_SEMI ";"]) -> StmtS0 (kx ++ [kw K_SEMI ";"]) X false.
 Proof.
   intros kx X c fs co EX HE Hg s le stop l0 HS HU _.
-  destruct (dispatch_expr _ s le (stop :: l0) HS Hg HU) as [s1 [HU1 Hd]].
+  destruct (dispatch_expr _ s le (stop :: l0) HS Hg HU) as [s1 [HU1 [HCd Hd]]].
   destruct (RoundTrip.Spell_app_inv P _ _ _ HS) as [lx [l2 [-> [HSx HS2]]]].
   destruct (RoundTrip.Spell_cons_inv P _ _ _ _ HS2) as [sm [l3 [-> [Hsk [_ HS3]]]]]. apply (RoundTrip.Spell_nil_inv P) in HS3. subst l3.
   rewrite <- app_assoc in HU1. cbn [app] in HU1.
@@ -322,17 +322,17 @@ Proof.
   { destruct Hg as [k [v [rest0 [Ek [Hes _]]]]]. unfold estart in Hes. apply andb_true_iff in Hes. destruct Hes as [Hes _]. apply andb_true_iff in Hes. destruct Hes as [_ Hse].
     destruct kx as [|[k0 v0] r0]; [cbn in Ek; injection Ek as <- _ _; discriminate Hse|]. cbn in Ek. injection Ek as <- <- _. exists k0, v0, r0. split; [reflexivity|exact Hse]. }
   assert (Hsme: estop (tk sm) = true) by (rewrite Hsk; reflexivity).
-  destruct (expropt_some kx X c fs co EX HE Hst s1 lx sm (stop :: l0) HSx HU1 Hsme) as [f0 [N [s2 [H2 [HU2 [HN HNn]]]]]].
+  destruct (expropt_some kx X c fs co EX HE Hst s1 lx sm (stop :: l0) HSx HU1 Hsme) as [f0 [N [s2 [H2 [HU2 [HN [HNn HL2]]]]]]].
   assert (Hsmk: kind_eqb (tk sm) K_SEMI = true) by (rewrite Hsk; reflexivity).
-  destruct (expect_up P s2 sm _ K_SEMI HU2 Hsmk) as [s3 [H3 [HU3 _]]].
-  exists (S (S (S f0))), N, s3. split; [|split; [exact HU3|exact HN]].
+  destruct (expect_up P s2 sm _ K_SEMI HU2 Hsmk) as [s3 [H3 [HU3 HC3]]].
+  exists (S (S (S f0))), N, s3. split; [|split; [exact HU3|split; [exact HN|cost_tac]]].
   intros f Hf. destruct f as [|[|f]]; try lia. rewrite Hd. rewrite exprstmt_eq. unfold bind at 1. rewrite (H2 f) by lia.
   unfold bind at 1. rewrite H3. rewrite EX in HN. destruct (strip_node_inv _ _ _ _ _ HN) as [fs' [co' ->]]. reflexivity.
 Qed.
 
 (* statements that start with a keyword *)
 Lemma disp_kw : forall k0 (s: pstate) t l, Up s (t :: l) -> tk t = k0 -> kind_eqb k0 K_ID = false ->
-  exists s1, Up s1 (t :: l) /\ forall f,
+  exists s1, Up s1 (t :: l) /\ Ran P s s1 0 /\ forall f,
     p_statement P (S f) s =
     (match sclass k0 with
      | 0 => p_labeled_statement P f | 2 => p_compound_statement P f | 3 => p_selection_statement P f
@@ -344,19 +344,19 @@ Proof. intros k0 s t l HU <- H1. apply dispatch_kw; assumption. Qed.
 Lemma s_empty : StmtS0 [kw K_SEMI ";"] (VNode C_EmptyStatement [] None) false.
 Proof.
   intros s le stop l0 HS HU _. destruct (RoundTrip.Spell_cons_inv P _ _ _ _ HS) as [sm [l2 [-> [Hk [_ HS2]]]]]. apply (RoundTrip.Spell_nil_inv P) in HS2. subst l2.
-  cbn [app] in HU. destruct (disp_kw K_SEMI s sm _ HU Hk eq_refl) as [s1 [HU1 Hd]]. cbv iota beta in Hd.
+  cbn [app] in HU. destruct (disp_kw K_SEMI s sm _ HU Hk eq_refl) as [s1 [HU1 [HCd Hd]]]. cbv iota beta in Hd.
   change (sclass K_SEMI) with 8 in Hd. cbv iota in Hd.
   assert (Hns: sestart (tk sm) = false) by (rewrite Hk; reflexivity).
-  destruct (expropt_none s1 sm _ HU1 Hns) as [s2 [H2 HU2]].
+  destruct (expropt_none s1 sm _ HU1 Hns) as [s2 [H2 [HU2 HC2]]].
   assert (Hsmk: kind_eqb (tk sm) K_SEMI = true) by (rewrite Hk; reflexivity).
-  destruct (expect_up P s2 sm _ K_SEMI HU2 Hsmk) as [s3 [H3 [HU3 _]]].
-  exists 4, (mkN P C_EmptyStatement [] (Some (mkCoord P (curfile P s3) (tp sm)))), s3. split; [|split; [exact HU3|reflexivity]].
+  destruct (expect_up P s2 sm _ K_SEMI HU2 Hsmk) as [s3 [H3 [HU3 HC3]]].
+  exists 4, (mkN P C_EmptyStatement [] (Some (mkCoord P (curfile P s3) (tp sm)))), s3. split; [|split; [exact HU3|split; [reflexivity|cost_tac]]].
   intros f Hf. destruct f as [|[|[|f]]]; try lia. rewrite Hd. rewrite exprstmt_eq. unfold bind at 1. rewrite H2.
   unfold bind at 1. rewrite H3. unfold bind at 1. rewrite tcoord_eq. reflexivity.
 Qed.
 
 Lemma jump_start : forall k0 (s: pstate) t l, Up s (t :: l) -> tk t = k0 -> kind_in k0 [K_GOTO; K_BREAK; K_CONTINUE; K_RETURN] = true ->
-  exists s2, Up s2 l /\ forall f, p_statement P (S (S f)) s =
+  exists s2, Up s2 l /\ Ran P s s2 1 /\ forall f, p_statement P (S (S f)) s =
     (if kind_eqb k0 K_GOTO then
       bind P (expect P K_ID) (fun nt => bind P (expect P K_SEMI) (fun _ => bind P (tcoord P t) (fun c => ret P (mkN P C_Goto [VStr (tv nt)] c))))
     else if kind_eqb k0 K_BREAK then bind P (expect P K_SEMI) (fun _ => bind P (tcoord P t) (fun c => ret P (mkN P C_Break [] c)))
@@ -372,8 +372,8 @@ Proof.
   intros k0 s t l HU Hk Hin.
   assert (H1: kind_eqb k0 K_ID = false) by (destruct k0; vm_compute in Hin; try discriminate Hin; reflexivity).
   assert (H3: sclass k0 = 5) by (destruct k0; vm_compute in Hin; try discriminate Hin; reflexivity).
-  destruct (disp_kw k0 s t l HU Hk H1) as [s1 [HU1 Hd]]. rewrite H3 in Hd.
-  destruct (advance_up P s1 t l HU1) as [s2 [Ha [HU2 _]]]. exists s2. split; [exact HU2|].
+  destruct (disp_kw k0 s t l HU Hk H1) as [s1 [HU1 [HCd Hd]]]. rewrite H3 in Hd.
+  destruct (advance_up P s1 t l HU1) as [s2 [Ha [HU2 HC2]]]. exists s2. split; [exact HU2|]. split; [cost_tac|].
   intros f. rewrite Hd. rewrite jump_eq. unfold bind at 1. rewrite Ha. rewrite Hk. reflexivity.
 Qed.
 
@@ -381,10 +381,10 @@ Lemma s_break : StmtS0 [kw K_BREAK "break"; kw K_SEMI ";"] (VNode C_Break [] Non
 Proof.
   intros s le stop l0 HS HU _. destruct (RoundTrip.Spell_cons_inv P _ _ _ _ HS) as [t [l2 [-> [Hk [_ HS2]]]]].
   destruct (RoundTrip.Spell_cons_inv P _ _ _ _ HS2) as [sm [l3 [-> [Hsk [_ HS3]]]]]. apply (RoundTrip.Spell_nil_inv P) in HS3. subst l3.
-  cbn [app] in HU. destruct (jump_start K_BREAK s t _ HU Hk eq_refl) as [s2 [HU2 Hd]].
+  cbn [app] in HU. destruct (jump_start K_BREAK s t _ HU Hk eq_refl) as [s2 [HU2 [HCd Hd]]].
   assert (Hsmk: kind_eqb (tk sm) K_SEMI = true) by (rewrite Hsk; reflexivity).
-  destruct (expect_up P s2 sm _ K_SEMI HU2 Hsmk) as [s3 [H3 [HU3 _]]].
-  exists 3, (mkN P C_Break [] (Some (mkCoord P (curfile P s3) (tp t)))), s3. split; [|split; [exact HU3|reflexivity]].
+  destruct (expect_up P s2 sm _ K_SEMI HU2 Hsmk) as [s3 [H3 [HU3 HC3]]].
+  exists 3, (mkN P C_Break [] (Some (mkCoord P (curfile P s3) (tp t)))), s3. split; [|split; [exact HU3|split; [reflexivity|cost_tac]]].
   intros f Hf. destruct f as [|[|f]]; try lia. rewrite Hd. kred. unfold bind at 1. rewrite H3. unfold bind at 1. rewrite tcoord_eq. reflexivity.
 Qed.
 
@@ -392,10 +392,10 @@ Lemma s_continue : StmtS0 [kw K_CONTINUE "continue"; kw K_SEMI ";"] (VNode C_Con
 Proof.
   intros s le stop l0 HS HU _. destruct (RoundTrip.Spell_cons_inv P _ _ _ _ HS) as [t [l2 [-> [Hk [_ HS2]]]]].
   destruct (RoundTrip.Spell_cons_inv P _ _ _ _ HS2) as [sm [l3 [-> [Hsk [_ HS3]]]]]. apply (RoundTrip.Spell_nil_inv P) in HS3. subst l3.
-  cbn [app] in HU. destruct (jump_start K_CONTINUE s t _ HU Hk eq_refl) as [s2 [HU2 Hd]].
+  cbn [app] in HU. destruct (jump_start K_CONTINUE s t _ HU Hk eq_refl) as [s2 [HU2 [HCd Hd]]].
   assert (Hsmk: kind_eqb (tk sm) K_SEMI = true) by (rewrite Hsk; reflexivity).
-  destruct (expect_up P s2 sm _ K_SEMI HU2 Hsmk) as [s3 [H3 [HU3 _]]].
-  exists 3, (mkN P C_Continue [] (Some (mkCoord P (curfile P s3) (tp t)))), s3. split; [|split; [exact HU3|reflexivity]].
+  destruct (expect_up P s2 sm _ K_SEMI HU2 Hsmk) as [s3 [H3 [HU3 HC3]]].
+  exists 3, (mkN P C_Continue [] (Some (mkCoord P (curfile P s3) (tp t)))), s3. split; [|split; [exact HU3|split; [reflexivity|cost_tac]]].
   intros f Hf. destruct f as [|[|f]]; try lia. rewrite Hd. kred. unfold bind at 1. rewrite H3. unfold bind at 1. rewrite tcoord_eq. reflexivity.
 Qed.
 
@@ -404,12 +404,12 @@ Proof.
   intros lbl s le stop l0 HS HU _. destruct (RoundTrip.Spell_cons_inv P _ _ _ _ HS) as [t [l2 [-> [Hk [_ HS2]]]]].
   destruct (RoundTrip.Spell_cons_inv P _ _ _ _ HS2) as [nt [l3 [-> [Hnk [Hnv HS3]]]]].
   destruct (RoundTrip.Spell_cons_inv P _ _ _ _ HS3) as [sm [l4 [-> [Hsk [_ HS4]]]]]. apply (RoundTrip.Spell_nil_inv P) in HS4. subst l4.
-  cbn [app] in HU. destruct (jump_start K_GOTO s t _ HU Hk eq_refl) as [s2 [HU2 Hd]].
+  cbn [app] in HU. destruct (jump_start K_GOTO s t _ HU Hk eq_refl) as [s2 [HU2 [HCd Hd]]].
   assert (Hidk: kind_eqb (tk nt) K_ID = true) by (rewrite Hnk; reflexivity).
-  destruct (expect_up P s2 nt _ K_ID HU2 Hidk) as [s3 [H3 [HU3 _]]].
+  destruct (expect_up P s2 nt _ K_ID HU2 Hidk) as [s3 [H3 [HU3 HC3]]].
   assert (Hsmk: kind_eqb (tk sm) K_SEMI = true) by (rewrite Hsk; reflexivity).
-  destruct (expect_up P s3 sm _ K_SEMI HU3 Hsmk) as [s4 [H4 [HU4 _]]].
-  exists 3, (mkN P C_Goto [VStr (tv nt)] (Some (mkCoord P (curfile P s4) (tp t)))), s4. split; [|split; [exact HU4|unfold mkN; cbn; rewrite Hnv; reflexivity]].
+  destruct (expect_up P s3 sm _ K_SEMI HU3 Hsmk) as [s4 [H4 [HU4 HC4]]].
+  exists 3, (mkN P C_Goto [VStr (tv nt)] (Some (mkCoord P (curfile P s4) (tp t)))), s4. split; [|split; [exact HU4|split; [unfold mkN; cbn; rewrite Hnv; reflexivity|cost_tac]]].
   intros f Hf. destruct f as [|[|f]]; try lia. rewrite Hd. kred. unfold bind at 1. rewrite H3. unfold bind at 1. rewrite H4.
   unfold bind at 1. rewrite tcoord_eq. reflexivity.
 Qed.
@@ -418,10 +418,10 @@ Lemma s_return0 : StmtS0 [kw K_RETURN "return"; kw K_SEMI ";"] (VNode C_Return [
 Proof.
   intros s le stop l0 HS HU _. destruct (RoundTrip.Spell_cons_inv P _ _ _ _ HS) as [t [l2 [-> [Hk [_ HS2]]]]].
   destruct (RoundTrip.Spell_cons_inv P _ _ _ _ HS2) as [sm [l3 [-> [Hsk [_ HS3]]]]]. apply (RoundTrip.Spell_nil_inv P) in HS3. subst l3.
-  cbn [app] in HU. destruct (jump_start K_RETURN s t _ HU Hk eq_refl) as [s2 [HU2 Hd]].
+  cbn [app] in HU. destruct (jump_start K_RETURN s t _ HU Hk eq_refl) as [s2 [HU2 [HCd Hd]]].
   assert (Hsmk: kind_eqb (tk sm) K_SEMI = true) by (rewrite Hsk; reflexivity).
-  destruct (accept_hit P s2 sm _ K_SEMI HU2 Hsmk) as [s3 [H3 [HU3 _]]].
-  exists 3, (mkN P C_Return [VNone] (Some (mkCoord P (curfile P s3) (tp t)))), s3. split; [|split; [exact HU3|reflexivity]].
+  destruct (accept_hit P s2 sm _ K_SEMI HU2 Hsmk) as [s3 [H3 [HU3 HC3]]].
+  exists 3, (mkN P C_Return [VNone] (Some (mkCoord P (curfile P s3) (tp t)))), s3. split; [|split; [exact HU3|split; [reflexivity|cost_tac]]].
   intros f Hf. destruct f as [|[|f]]; try lia. rewrite Hd. kred. unfold bind at 1. rewrite H3. unfold bind at 1. rewrite tcoord_eq. reflexivity.
 Qed.
 
@@ -432,23 +432,23 @@ Proof.
   destruct (RoundTrip.Spell_app_inv P _ _ _ HS2) as [lx [l3 [-> [HSx HS3]]]].
   destruct (RoundTrip.Spell_cons_inv P _ _ _ _ HS3) as [sm [l4 [-> [Hsk [_ HS4]]]]]. apply (RoundTrip.Spell_nil_inv P) in HS4. subst l4.
   cbn [app] in HU. rewrite <- app_assoc in HU. cbn [app] in HU.
-  destruct (jump_start K_RETURN s t _ HU Hk eq_refl) as [s2 [HU2 Hd]].
+  destruct (jump_start K_RETURN s t _ HU Hk eq_refl) as [s2 [HU2 [HCd Hd]]].
   (* the first token of the expression is not ';' *)
   pose proof HSx as HSx0. rewrite Ek in HSx. destruct (RoundTrip.Spell_cons_inv P _ _ _ _ HSx) as [x1 [tl [El [Hkx [_ _]]]]]. subst lx. cbn [app] in HU2.
   assert (Hnosemi: kind_eqb (tk x1) K_SEMI = false).
   { rewrite Hkx. clear -Hsk0. unfold sestart in Hsk0. destruct k; vm_compute in Hsk0; try discriminate Hsk0; reflexivity. }
-  destruct (accept_miss P s2 x1 _ K_SEMI HU2 Hnosemi) as [s3 [H3 [HU3 _]]].
+  destruct (accept_miss P s2 x1 _ K_SEMI HU2 Hnosemi) as [s3 [H3 [HU3 HC3]]].
   assert (Hsme: estop (tk sm) = true) by (rewrite Hsk; reflexivity).
-  destruct (HE s3 (x1 :: tl) sm (stop :: l0) HSx0 HU3 Hsme) as [f0 [N [s4 [H4 [HU4 [HN _]]]]]].
+  destruct (HE s3 (x1 :: tl) sm (stop :: l0) HSx0 HU3 Hsme) as [f0 [N [s4 [H4 [HU4 [HN HL4]]]]]].
   assert (Hsmk: kind_eqb (tk sm) K_SEMI = true) by (rewrite Hsk; reflexivity).
-  destruct (expect_up P s4 sm _ K_SEMI HU4 Hsmk) as [s5 [H5 [HU5 _]]].
-  exists (S (S (S f0))), (mkN P C_Return [N] (Some (mkCoord P (curfile P s5) (tp t)))), s5. split; [|split; [exact HU5|unfold mkN; cbn [strip map]; rewrite HN; reflexivity]].
+  destruct (expect_up P s4 sm _ K_SEMI HU4 Hsmk) as [s5 [H5 [HU5 HC5]]].
+  exists (S (S (S f0))), (mkN P C_Return [N] (Some (mkCoord P (curfile P s5) (tp t)))), s5. split; [|split; [exact HU5|split; [unfold mkN; cbn [strip map]; rewrite HN; reflexivity|cost_tac]]].
   intros f Hf. destruct f as [|[|f]]; try lia. rewrite Hd. kred. unfold bind at 1. rewrite H3. unfold bind at 1. rewrite (H4 f) by lia.
   unfold bind at 1. rewrite H5. unfold bind at 1. rewrite tcoord_eq. reflexivity.
 Qed.
 (* ---- if / while / do / for ---- *)
 Lemma sel_start : forall (s: pstate) t l, Up s (t :: l) -> tk t = K_IF ->
-  exists s2, Up s2 l /\ forall f, p_statement P (S (S f)) s =
+  exists s2, Up s2 l /\ Ran P s s2 1 /\ forall f, p_statement P (S (S f)) s =
     bind P (expect P K_LPAREN) (fun _ => bind P (p_expression P f) (fun cond => bind P (expect P K_RPAREN) (fun _ =>
     bind P (p_pragmacomp_or_statement P f) (fun th => bind P (accept P K_ELSE) (fun el =>
     match el with
@@ -456,8 +456,8 @@ Lemma sel_start : forall (s: pstate) t l, Up s (t :: l) -> tk t = K_IF ->
     | None => bind P (tcoord P t) (fun c => ret P (mkN P C_If [cond; th; VNone] c))
     end))))) s2.
 Proof.
-  intros s t l HU Hk. destruct (disp_kw K_IF s t l HU Hk eq_refl) as [s1 [HU1 Hd]]. change (sclass K_IF) with 3 in Hd. cbv iota in Hd.
-  destruct (advance_up P s1 t l HU1) as [s2 [Ha [HU2 _]]]. exists s2. split; [exact HU2|].
+  intros s t l HU Hk. destruct (disp_kw K_IF s t l HU Hk eq_refl) as [s1 [HU1 [HCd Hd]]]. change (sclass K_IF) with 3 in Hd. cbv iota in Hd.
+  destruct (advance_up P s1 t l HU1) as [s2 [Ha [HU2 HC2]]]. exists s2. split; [exact HU2|]. split; [cost_tac|].
   intros f. rewrite Hd. rewrite (sel_eq P). unfold bind at 1. rewrite Ha. rewrite Hk. reflexivity.
 Qed.
 
@@ -474,28 +474,28 @@ Definition for_body (t: tok) (f: nat) : M P (ParserBase.node P) :=
   bind P (p_pragmacomp_or_statement P f) (fun st => bind P (tcoord P t) (fun c => ret P (mkN P C_For [init; cond; nx; st] c))))))))).
 
 Lemma while_start : forall (s: pstate) t l, Up s (t :: l) -> tk t = K_WHILE ->
-  exists s2, Up s2 l /\ forall f, p_statement P (S (S f)) s = while_body t f s2.
+  exists s2, Up s2 l /\ Ran P s s2 1 /\ forall f, p_statement P (S (S f)) s = while_body t f s2.
 Proof.
-  intros s t l HU Hk. destruct (disp_kw K_WHILE s t l HU Hk eq_refl) as [s1 [HU1 Hd]]. change (sclass K_WHILE) with 4 in Hd. cbv iota in Hd.
-  destruct (advance_up P s1 t l HU1) as [s2 [Ha [HU2 _]]]. exists s2. split; [exact HU2|].
+  intros s t l HU Hk. destruct (disp_kw K_WHILE s t l HU Hk eq_refl) as [s1 [HU1 [HCd Hd]]]. change (sclass K_WHILE) with 4 in Hd. cbv iota in Hd.
+  destruct (advance_up P s1 t l HU1) as [s2 [Ha [HU2 HC2]]]. exists s2. split; [exact HU2|]. split; [cost_tac|].
   intros f. rewrite Hd. rewrite iter_eq. unfold bind at 1. rewrite Ha. rewrite Hk. reflexivity.
 Qed.
 Lemma do_start : forall (s: pstate) t l, Up s (t :: l) -> tk t = K_DO ->
-  exists s2, Up s2 l /\ forall f, p_statement P (S (S f)) s = do_body t f s2.
+  exists s2, Up s2 l /\ Ran P s s2 1 /\ forall f, p_statement P (S (S f)) s = do_body t f s2.
 Proof.
-  intros s t l HU Hk. destruct (disp_kw K_DO s t l HU Hk eq_refl) as [s1 [HU1 Hd]]. change (sclass K_DO) with 4 in Hd. cbv iota in Hd.
-  destruct (advance_up P s1 t l HU1) as [s2 [Ha [HU2 _]]]. exists s2. split; [exact HU2|].
+  intros s t l HU Hk. destruct (disp_kw K_DO s t l HU Hk eq_refl) as [s1 [HU1 [HCd Hd]]]. change (sclass K_DO) with 4 in Hd. cbv iota in Hd.
+  destruct (advance_up P s1 t l HU1) as [s2 [Ha [HU2 HC2]]]. exists s2. split; [exact HU2|]. split; [cost_tac|].
   intros f. rewrite Hd. rewrite iter_eq. unfold bind at 1. rewrite Ha. rewrite Hk. reflexivity.
 Qed.
 (* for ( : the token after the parenthesis does not start a declaration *)
 Lemma for_start : forall (s: pstate) t lp x l, Up s (t :: lp :: x :: l) -> tk t = K_FOR -> tk lp = K_LPAREN -> kind_in (tk x) tbl_DECL_START = false ->
-  exists s2, Up s2 (x :: l) /\ forall f, p_statement P (S (S f)) s = for_body t f s2.
+  exists s2, Up s2 (x :: l) /\ Ran P s s2 2 /\ forall f, p_statement P (S (S f)) s = for_body t f s2.
 Proof.
-  intros s t lp x l HU Hk Hlp Hx. destruct (disp_kw K_FOR s t _ HU Hk eq_refl) as [s1 [HU1 Hd]]. change (sclass K_FOR) with 4 in Hd. cbv iota in Hd.
-  destruct (advance_up P s1 t _ HU1) as [s2 [Ha [HU2 _]]].
+  intros s t lp x l HU Hk Hlp Hx. destruct (disp_kw K_FOR s t _ HU Hk eq_refl) as [s1 [HU1 [HCd Hd]]]. change (sclass K_FOR) with 4 in Hd. cbv iota in Hd.
+  destruct (advance_up P s1 t _ HU1) as [s2 [Ha [HU2 HC2]]].
   assert (Hlpk: kind_eqb (tk lp) K_LPAREN = true) by (rewrite Hlp; reflexivity).
-  destruct (expect_up P s2 lp _ K_LPAREN HU2 Hlpk) as [s3 [H3 [HU3 _]]].
-  destruct (peek_kind_up P s3 x _ HU3) as [s4 [H4 [HU4 _]]]. exists s4. split; [exact HU4|].
+  destruct (expect_up P s2 lp _ K_LPAREN HU2 Hlpk) as [s3 [H3 [HU3 HC3]]].
+  destruct (peek_kind_up P s3 x _ HU3) as [s4 [H4 [HU4 HC4]]]. exists s4. split; [exact HU4|]. split; [cost_tac|].
   intros f. rewrite Hd. rewrite iter_eq. unfold bind at 1. rewrite Ha. rewrite Hk. kred.
   unfold bind at 1. rewrite H3. unfold bind at 1. unfold starts_declaration. unfold bind at 1. rewrite H4. unfold ret at 1. cbn [okind_in]. rewrite Hx. reflexivity.
 Qed.
@@ -509,17 +509,17 @@ Proof.
   destruct (RoundTrip.Spell_app_inv P _ _ _ HS2) as [lc [l3 [-> [HSc HS3]]]].
   destruct (RoundTrip.Spell_cons_inv P _ _ _ _ HS3) as [rpt [lth [-> [Hrp [_ HSth]]]]].
   cbn [app] in HU. rewrite <- app_assoc in HU. cbn [app] in HU.
-  destruct (sel_start s t _ HU Hk) as [s2 [HU2 Hd]].
+  destruct (sel_start s t _ HU Hk) as [s2 [HU2 [HCd Hd]]].
   assert (Hlpk: kind_eqb (tk lp) K_LPAREN = true) by (rewrite Hlp; reflexivity).
-  destruct (expect_up P s2 lp _ K_LPAREN HU2 Hlpk) as [s3 [H3 [HU3 _]]].
+  destruct (expect_up P s2 lp _ K_LPAREN HU2 Hlpk) as [s3 [H3 [HU3 HC3]]].
   assert (Hre: estop (tk rpt) = true) by (rewrite Hrp; reflexivity).
-  destruct (HE s3 lc rpt _ HSc HU3 Hre) as [f1 [Nc [s4 [H4 [HU4 [HNc _]]]]]].
+  destruct (HE s3 lc rpt _ HSc HU3 Hre) as [f1 [Nc [s4 [H4 [HU4 [HNc HL4]]]]]].
   assert (Hrpk: kind_eqb (tk rpt) K_RPAREN = true) by (rewrite Hrp; reflexivity).
-  destruct (expect_up P s4 rpt _ K_RPAREN HU4 Hrpk) as [s5 [H5 [HU5 _]]].
-  destruct (HT s5 lth stop l0 HSth HU5 (fun _ => Hop eq_refl)) as [f2 [Nth [s6 [H6 [HU6 HNth]]]]].
-  destruct (accept_miss P s6 stop l0 K_ELSE HU6 (Hop eq_refl)) as [s7 [H7 [HU7 _]]].
+  destruct (expect_up P s4 rpt _ K_RPAREN HU4 Hrpk) as [s5 [H5 [HU5 HC5]]].
+  destruct (HT s5 lth stop l0 HSth HU5 (fun _ => Hop eq_refl)) as [f2 [Nth [s6 [H6 [HU6 [HNth HL6]]]]]].
+  destruct (accept_miss P s6 stop l0 K_ELSE HU6 (Hop eq_refl)) as [s7 [H7 [HU7 HC7]]].
   exists (S (S (S (Nat.max f1 f2)))), (mkN P C_If [Nc; Nth; VNone] (Some (mkCoord P (curfile P s7) (tp t)))), s7.
-  split; [|split; [exact HU7|unfold mkN; cbn [strip map]; rewrite HNc, HNth; reflexivity]].
+  split; [|split; [exact HU7|split; [unfold mkN; cbn [strip map]; rewrite HNc, HNth; reflexivity|cost_tac]]].
   intros f Hf. destruct f as [|[|f]]; try lia. rewrite Hd. unfold bind at 1. rewrite H3. unfold bind at 1. rewrite (H4 f) by lia.
   unfold bind at 1. rewrite H5. unfold bind at 1. rewrite (H6 f) by lia. unfold bind at 1. rewrite H7. unfold bind at 1. rewrite tcoord_eq. reflexivity.
 Qed.
@@ -535,19 +535,19 @@ Proof.
   destruct (RoundTrip.Spell_app_inv P _ _ _ HS4) as [lth [l5 [-> [HSth HS5]]]].
   destruct (RoundTrip.Spell_cons_inv P _ _ _ _ HS5) as [et [lel [-> [Hek [_ HSel]]]]].
   cbn [app] in HU. rewrite <- app_assoc in HU. cbn [app] in HU. rewrite <- app_assoc in HU. cbn [app] in HU.
-  destruct (sel_start s t _ HU Hk) as [s2 [HU2 Hd]].
+  destruct (sel_start s t _ HU Hk) as [s2 [HU2 [HCd Hd]]].
   assert (Hlpk: kind_eqb (tk lp) K_LPAREN = true) by (rewrite Hlp; reflexivity).
-  destruct (expect_up P s2 lp _ K_LPAREN HU2 Hlpk) as [s3 [H3 [HU3 _]]].
+  destruct (expect_up P s2 lp _ K_LPAREN HU2 Hlpk) as [s3 [H3 [HU3 HC3]]].
   assert (Hre: estop (tk rpt) = true) by (rewrite Hrp; reflexivity).
-  destruct (HE s3 lc rpt _ HSc HU3 Hre) as [f1 [Nc [s4 [H4 [HU4 [HNc _]]]]]].
+  destruct (HE s3 lc rpt _ HSc HU3 Hre) as [f1 [Nc [s4 [H4 [HU4 [HNc HL4]]]]]].
   assert (Hrpk: kind_eqb (tk rpt) K_RPAREN = true) by (rewrite Hrp; reflexivity).
-  destruct (expect_up P s4 rpt _ K_RPAREN HU4 Hrpk) as [s5 [H5 [HU5 _]]].
-  destruct (HT s5 lth et _ HSth HU5 (fun E => False_ind _ (Bool.diff_false_true E))) as [f2 [Nth [s6 [H6 [HU6 HNth]]]]].
+  destruct (expect_up P s4 rpt _ K_RPAREN HU4 Hrpk) as [s5 [H5 [HU5 HC5]]].
+  destruct (HT s5 lth et _ HSth HU5 (fun E => False_ind _ (Bool.diff_false_true E))) as [f2 [Nth [s6 [H6 [HU6 [HNth HL6]]]]]].
   assert (Hetk: kind_eqb (tk et) K_ELSE = true) by (rewrite Hek; reflexivity).
-  destruct (accept_hit P s6 et _ K_ELSE HU6 Hetk) as [s7 [H7 [HU7 _]]].
-  destruct (HL s7 lel stop l0 HSel HU7 Hop) as [f3 [Nel [s8 [H8 [HU8 HNel]]]]].
+  destruct (accept_hit P s6 et _ K_ELSE HU6 Hetk) as [s7 [H7 [HU7 HC7]]].
+  destruct (HL s7 lel stop l0 HSel HU7 Hop) as [f3 [Nel [s8 [H8 [HU8 [HNel HL8]]]]]].
   exists (S (S (S (Nat.max f1 (Nat.max f2 f3))))), (mkN P C_If [Nc; Nth; Nel] (Some (mkCoord P (curfile P s8) (tp t)))), s8.
-  split; [|split; [exact HU8|unfold mkN; cbn [strip map]; rewrite HNc, HNth, HNel; reflexivity]].
+  split; [|split; [exact HU8|split; [unfold mkN; cbn [strip map]; rewrite HNc, HNth, HNel; reflexivity|cost_tac]]].
   intros f Hf. destruct f as [|[|f]]; try lia. rewrite Hd. unfold bind at 1. rewrite H3. unfold bind at 1. rewrite (H4 f) by lia.
   unfold bind at 1. rewrite H5. unfold bind at 1. rewrite (H6 f) by lia. unfold bind at 1. rewrite H7.
   unfold bind at 1. rewrite (H8 f) by lia. unfold bind at 1. rewrite tcoord_eq. reflexivity.
@@ -562,16 +562,16 @@ Proof.
   destruct (RoundTrip.Spell_app_inv P _ _ _ HS2) as [lc [l3 [-> [HSc HS3]]]].
   destruct (RoundTrip.Spell_cons_inv P _ _ _ _ HS3) as [rpt [lb [-> [Hrp [_ HSb]]]]].
   cbn [app] in HU. rewrite <- app_assoc in HU. cbn [app] in HU.
-  destruct (while_start s t _ HU Hk) as [s2 [HU2 Hd]].
+  destruct (while_start s t _ HU Hk) as [s2 [HU2 [HCd Hd]]].
   assert (Hlpk: kind_eqb (tk lp) K_LPAREN = true) by (rewrite Hlp; reflexivity).
-  destruct (expect_up P s2 lp _ K_LPAREN HU2 Hlpk) as [s3 [H3 [HU3 _]]].
+  destruct (expect_up P s2 lp _ K_LPAREN HU2 Hlpk) as [s3 [H3 [HU3 HC3]]].
   assert (Hre: estop (tk rpt) = true) by (rewrite Hrp; reflexivity).
-  destruct (HE s3 lc rpt _ HSc HU3 Hre) as [f1 [Nc [s4 [H4 [HU4 [HNc _]]]]]].
+  destruct (HE s3 lc rpt _ HSc HU3 Hre) as [f1 [Nc [s4 [H4 [HU4 [HNc HL4]]]]]].
   assert (Hrpk: kind_eqb (tk rpt) K_RPAREN = true) by (rewrite Hrp; reflexivity).
-  destruct (expect_up P s4 rpt _ K_RPAREN HU4 Hrpk) as [s5 [H5 [HU5 _]]].
-  destruct (HB s5 lb stop l0 HSb HU5 Hop) as [f2 [Nb [s6 [H6 [HU6 HNb]]]]].
+  destruct (expect_up P s4 rpt _ K_RPAREN HU4 Hrpk) as [s5 [H5 [HU5 HC5]]].
+  destruct (HB s5 lb stop l0 HSb HU5 Hop) as [f2 [Nb [s6 [H6 [HU6 [HNb HL6]]]]]].
   exists (S (S (S (Nat.max f1 f2)))), (mkN P C_While [Nc; Nb] (Some (mkCoord P (curfile P s6) (tp t)))), s6.
-  split; [|split; [exact HU6|unfold mkN; cbn [strip map]; rewrite HNc, HNb; reflexivity]].
+  split; [|split; [exact HU6|split; [unfold mkN; cbn [strip map]; rewrite HNc, HNb; reflexivity|cost_tac]]].
   intros f Hf. destruct f as [|[|f]]; try lia. rewrite Hd. unfold while_body. unfold bind at 1. rewrite H3. unfold bind at 1. rewrite (H4 f) by lia.
   unfold bind at 1. rewrite H5. unfold bind at 1. rewrite (H6 f) by lia. unfold bind at 1. rewrite tcoord_eq. reflexivity.
 Qed.
@@ -588,21 +588,21 @@ Proof.
   destruct (RoundTrip.Spell_cons_inv P _ _ _ _ HS5) as [rpt [l6 [-> [Hrp [_ HS6]]]]].
   destruct (RoundTrip.Spell_cons_inv P _ _ _ _ HS6) as [sm [l7 [-> [Hsk [_ HS7]]]]]. apply (RoundTrip.Spell_nil_inv P) in HS7. subst l7.
   cbn [app] in HU. rewrite <- app_assoc in HU. cbn [app] in HU. rewrite <- app_assoc in HU. cbn [app] in HU.
-  destruct (do_start s t _ HU Hk) as [s2 [HU2 Hd]].
+  destruct (do_start s t _ HU Hk) as [s2 [HU2 [HCd Hd]]].
   assert (Hwne: opb = true -> kind_eqb (tk wt) K_ELSE = false) by (intros _; rewrite Hwk; reflexivity).
-  destruct (HB s2 lb wt _ HSb HU2 Hwne) as [f1 [Nb [s3 [H3 [HU3 HNb]]]]].
+  destruct (HB s2 lb wt _ HSb HU2 Hwne) as [f1 [Nb [s3 [H3 [HU3 [HNb HL3]]]]]].
   assert (Hwkk: kind_eqb (tk wt) K_WHILE = true) by (rewrite Hwk; reflexivity).
-  destruct (expect_up P s3 wt _ K_WHILE HU3 Hwkk) as [s4 [H4 [HU4 _]]].
+  destruct (expect_up P s3 wt _ K_WHILE HU3 Hwkk) as [s4 [H4 [HU4 HC4]]].
   assert (Hlpk: kind_eqb (tk lp) K_LPAREN = true) by (rewrite Hlp; reflexivity).
-  destruct (expect_up P s4 lp _ K_LPAREN HU4 Hlpk) as [s5 [H5 [HU5 _]]].
+  destruct (expect_up P s4 lp _ K_LPAREN HU4 Hlpk) as [s5 [H5 [HU5 HC5]]].
   assert (Hre: estop (tk rpt) = true) by (rewrite Hrp; reflexivity).
-  destruct (HE s5 lc rpt _ HSc HU5 Hre) as [f2 [Nc [s6 [H6 [HU6 [HNc _]]]]]].
+  destruct (HE s5 lc rpt _ HSc HU5 Hre) as [f2 [Nc [s6 [H6 [HU6 [HNc HL6]]]]]].
   assert (Hrpk: kind_eqb (tk rpt) K_RPAREN = true) by (rewrite Hrp; reflexivity).
-  destruct (expect_up P s6 rpt _ K_RPAREN HU6 Hrpk) as [s7 [H7 [HU7 _]]].
+  destruct (expect_up P s6 rpt _ K_RPAREN HU6 Hrpk) as [s7 [H7 [HU7 HC7]]].
   assert (Hsmk: kind_eqb (tk sm) K_SEMI = true) by (rewrite Hsk; reflexivity).
-  destruct (expect_up P s7 sm _ K_SEMI HU7 Hsmk) as [s8 [H8 [HU8 _]]].
+  destruct (expect_up P s7 sm _ K_SEMI HU7 Hsmk) as [s8 [H8 [HU8 HC8]]].
   exists (S (S (S (Nat.max f1 f2)))), (mkN P C_DoWhile [Nc; Nb] (Some (mkCoord P (curfile P s8) (tp t)))), s8.
-  split; [|split; [exact HU8|unfold mkN; cbn [strip map]; rewrite HNc, HNb; reflexivity]].
+  split; [|split; [exact HU8|split; [unfold mkN; cbn [strip map]; rewrite HNc, HNb; reflexivity|cost_tac]]].
   intros f Hf. destruct f as [|[|f]]; try lia. rewrite Hd. unfold do_body. unfold bind at 1. rewrite (H3 f) by lia.
   unfold bind at 1. rewrite H4. unfold bind at 1. rewrite H5. unfold bind at 1. rewrite (H6 f) by lia.
   unfold bind at 1. rewrite H7. unfold bind at 1. rewrite H8. unfold bind at 1. rewrite tcoord_eq. reflexivity.
@@ -615,14 +615,14 @@ Definition OptOK (kx: list (kind * str)) (X: value unit) : Prop :=
 
 Lemma opt_run : forall kx X, OptOK kx X ->
   forall (s: pstate) le (stop: tok) l0, Spell le kx -> Up s (le ++ stop :: l0) -> estop (tk stop) = true -> sestart (tk stop) = false ->
-  exists f0 N s', (forall f, f0 <= f -> p_expression_opt P f s = Ok (N, s')) /\ Up s' (stop :: l0) /\ strip N = X.
+  exists f0 N s', (forall f, f0 <= f -> p_expression_opt P f s = Ok (N, s')) /\ Up s' (stop :: l0) /\ strip N = X /\ Ran P s s' (length le).
 Proof.
   intros kx X [[-> ->]|[[c [fs [co EX]]] [HE Hh]]] s le stop l0 HS HU Hst Hns.
   - apply (RoundTrip.Spell_nil_inv P) in HS. subst le. cbn [app] in HU.
-    destruct (expropt_none s stop l0 HU Hns) as [s1 [H1 HU1]]. exists 1, VNone, s1. split; [|split; [exact HU1|reflexivity]].
+    destruct (expropt_none s stop l0 HU Hns) as [s1 [H1 [HU1 HC1]]]. exists 1, VNone, s1. split; [|split; [exact HU1|split; [reflexivity|cost_tac]]].
     intros f Hf. destruct f as [|f]; [lia|]. apply H1.
-  - destruct (expropt_some kx X c fs co EX HE Hh s le stop l0 HS HU Hst) as [f0 [N [s1 [H1 [HU1 [HN _]]]]]].
-    exists f0, N, s1. split; [exact H1|split; [exact HU1|exact HN]].
+  - destruct (expropt_some kx X c fs co EX HE Hh s le stop l0 HS HU Hst) as [f0 [N [s1 [H1 [HU1 [HN [_ HL1]]]]]]].
+    exists f0, N, s1. split; [exact H1|split; [exact HU1|split; [exact HN|exact HL1]]].
 Qed.
 
 Lemma opt_first : forall kx X y, OptOK kx X -> kind_in (fst y) tbl_DECL_START = false ->
@@ -657,24 +657,24 @@ Proof.
     change (li ++ sm1 :: lc ++ sm2 :: ln ++ rpt :: lb ++ stop :: l0) with (li ++ [sm1] ++ (lc ++ sm2 :: ln ++ rpt :: lb ++ stop :: l0)).
     rewrite app_assoc, Ex. reflexivity. }
   destruct Hx as [x [lx [Ex Hxd]]]. rewrite Ex in HU.
-  destruct (for_start s t lp x lx HU Hk Hlp Hxd) as [s2 [HU2 Hd]]. rewrite <- Ex in HU2.
+  destruct (for_start s t lp x lx HU Hk Hlp Hxd) as [s2 [HU2 [HCd Hd]]]. rewrite <- Ex in HU2.
   assert (Hse: estop K_SEMI = true) by reflexivity. assert (Hsn: sestart K_SEMI = false) by reflexivity.
   assert (Hre: estop K_RPAREN = true) by reflexivity. assert (Hrn: sestart K_RPAREN = false) by reflexivity.
   rewrite <- Hs1 in Hse, Hsn.
-  destruct (opt_run ki Xi Hi s2 li sm1 _ HSi HU2 Hse Hsn) as [f1 [Ni [s3 [H3 [HU3 HNi]]]]].
+  destruct (opt_run ki Xi Hi s2 li sm1 _ HSi HU2 Hse Hsn) as [f1 [Ni [s3 [H3 [HU3 [HNi HL3]]]]]].
   assert (Hsk1: kind_eqb (tk sm1) K_SEMI = true) by (rewrite Hs1; reflexivity).
-  destruct (expect_up P s3 sm1 _ K_SEMI HU3 Hsk1) as [s4 [H4 [HU4 _]]].
+  destruct (expect_up P s3 sm1 _ K_SEMI HU3 Hsk1) as [s4 [H4 [HU4 HC4]]].
   assert (Hse2: estop (tk sm2) = true) by (rewrite Hs2; reflexivity). assert (Hsn2: sestart (tk sm2) = false) by (rewrite Hs2; reflexivity).
-  destruct (opt_run kc Xc Hc s4 lc sm2 _ HSc HU4 Hse2 Hsn2) as [f2 [Nc [s5 [H5 [HU5 HNc]]]]].
+  destruct (opt_run kc Xc Hc s4 lc sm2 _ HSc HU4 Hse2 Hsn2) as [f2 [Nc [s5 [H5 [HU5 [HNc HL5]]]]]].
   assert (Hsk2: kind_eqb (tk sm2) K_SEMI = true) by (rewrite Hs2; reflexivity).
-  destruct (expect_up P s5 sm2 _ K_SEMI HU5 Hsk2) as [s6 [H6 [HU6 _]]].
+  destruct (expect_up P s5 sm2 _ K_SEMI HU5 Hsk2) as [s6 [H6 [HU6 HC6]]].
   rewrite <- Hrp in Hre, Hrn.
-  destruct (opt_run kn Xn Hn s6 ln rpt _ HSn HU6 Hre Hrn) as [f3 [Nn [s7 [H7 [HU7 HNn]]]]].
+  destruct (opt_run kn Xn Hn s6 ln rpt _ HSn HU6 Hre Hrn) as [f3 [Nn [s7 [H7 [HU7 [HNn HL7]]]]]].
   assert (Hrpk: kind_eqb (tk rpt) K_RPAREN = true) by (rewrite Hrp; reflexivity).
-  destruct (expect_up P s7 rpt _ K_RPAREN HU7 Hrpk) as [s8 [H8 [HU8 _]]].
-  destruct (HB s8 lb stop l0 HSb HU8 Hop) as [f4 [Nb [s9 [H9 [HU9 HNb]]]]].
+  destruct (expect_up P s7 rpt _ K_RPAREN HU7 Hrpk) as [s8 [H8 [HU8 HC8]]].
+  destruct (HB s8 lb stop l0 HSb HU8 Hop) as [f4 [Nb [s9 [H9 [HU9 [HNb HL9]]]]]].
   exists (S (S (S (Nat.max (Nat.max f1 f2) (Nat.max f3 f4))))), (mkN P C_For [Ni; Nc; Nn; Nb] (Some (mkCoord P (curfile P s9) (tp t)))), s9.
-  split; [|split; [exact HU9|unfold mkN; cbn [strip map]; rewrite HNi, HNc, HNn, HNb; reflexivity]].
+  split; [|split; [exact HU9|split; [unfold mkN; cbn [strip map]; rewrite HNi, HNc, HNn, HNb; reflexivity|cost_tac]]].
   intros f Hf. destruct f as [|[|f]]; try lia. rewrite Hd. unfold for_body. unfold bind at 1. rewrite (H3 f) by lia.
   unfold bind at 1. rewrite H4. unfold bind at 1. rewrite (H5 f) by lia. unfold bind at 1. rewrite H6.
   unfold bind at 1. rewrite (H7 f) by lia. unfold bind at 1. rewrite H8. unfold bind at 1. rewrite (H9 f) by lia.
@@ -714,19 +714,19 @@ Definition item_ok (it: list (kind * str) * value unit * bool) : Prop :=
 
 Lemma blk_run : forall items, Forall item_ok items ->
   forall (s: pstate) le (rb: tok) rest, Spell le (concat (map (fun it => fst (fst it)) items)) -> Up s (le ++ rb :: rest) -> tk rb = K_RBRACE ->
-  exists f0 Ns s', (forall f, f0 <= f -> p_block_item_list P f s = Ok (Ns, s')) /\ Up s' (rb :: rest) /\ map strip Ns = map (fun it => snd (fst it)) items.
+  exists f0 Ns s', (forall f, f0 <= f -> p_block_item_list P f s = Ok (Ns, s')) /\ Up s' (rb :: rest) /\ map strip Ns = map (fun it => snd (fst it)) items /\ Ran P s s' (length le).
 Proof.
   induction items as [|[[kvs X] op] items IH]; intros HF s le rb rest HS HU Hrb.
   - apply (RoundTrip.Spell_nil_inv P) in HS. subst le. cbn [app] in HU.
-    destruct (peek_kind_up P s rb rest HU) as [s1 [H1 [HU1 _]]]. exists 1, [], s1. split; [|split; [exact HU1|reflexivity]].
+    destruct (peek_kind_up P s rb rest HU) as [s1 [H1 [HU1 HC1]]]. exists 1, [], s1. split; [|split; [exact HU1|split; [reflexivity|cost_tac]]].
     intros f Hf. destruct f as [|f]; [lia|]. rewrite blk_eq. unfold bind at 1. rewrite H1. rewrite Hrb. reflexivity.
   - inversion HF as [|x y Hit HF']; subst x y. unfold item_ok in Hit. destruct Hit as [H0 [[k [v [rest0 [Ek Hsk]]]] [c [fs [co EX]]]]].
     cbn [map concat fst snd] in HS. destruct (RoundTrip.Spell_app_inv P _ _ _ HS) as [l1 [lr [-> [HS1 HSr]]]].
     destruct (sstart_facts k Hsk) as (_ & Hnrb & Hnds & _).
     pose proof HS1 as HS1'. rewrite Ek in HS1'. destruct (RoundTrip.Spell_cons_inv P _ _ _ _ HS1') as [t [tl [El [Hkt [_ _]]]]]. subst l1.
     rewrite <- app_assoc in HU. cbn [app] in HU.
-    destruct (peek_kind_up P s t _ HU) as [s1 [H1 [HU1 _]]].
-    destruct (peek_kind_up P s1 t _ HU1) as [s2 [H2 [HU2 _]]].
+    destruct (peek_kind_up P s t _ HU) as [s1 [H1 [HU1 HC1]]].
+    destruct (peek_kind_up P s1 t _ HU1) as [s2 [H2 [HU2 HC2]]].
     (* the token after this item: the first token of the next item, or the closing brace - never `else` *)
     assert (Hnext: exists n l', lr ++ rb :: rest = n :: l' /\ kind_eqb (tk n) K_ELSE = false).
     { destruct items as [|[[kvs2 X2] op2] items'].
@@ -736,10 +736,10 @@ Proof.
         rewrite Hkn. exact (proj2 (proj2 (proj2 (sstart_facts k2 Hsk2)))). }
     destruct Hnext as [n [l' [En Hn]]].
     change (t :: tl ++ lr ++ rb :: rest) with ((t :: tl) ++ lr ++ rb :: rest) in HU2. rewrite En in HU2.
-    destruct (H0 s2 (t :: tl) n l' HS1 HU2 (fun _ => Hn)) as [f1 [N [s3 [H3 [HU3 HN]]]]]. rewrite <- En in HU3.
-    destruct (IH HF' s3 lr rb rest HSr HU3 Hrb) as [f2 [Ns [s4 [H4 [HU4 HNs]]]]].
+    destruct (H0 s2 (t :: tl) n l' HS1 HU2 (fun _ => Hn)) as [f1 [N [s3 [H3 [HU3 [HN HL3]]]]]]. rewrite <- En in HU3.
+    destruct (IH HF' s3 lr rb rest HSr HU3 Hrb) as [f2 [Ns [s4 [H4 [HU4 [HNs HL4]]]]]].
     rewrite EX in HN. destruct (strip_node_inv _ _ _ _ _ HN) as [fs' [co' EN]].
-    exists (S (Nat.max f1 f2)), (N :: Ns), s4. split; [|split; [exact HU4|cbn [map fst snd]; rewrite HNs, HN, EX; reflexivity]].
+    exists (S (Nat.max f1 f2)), (N :: Ns), s4. split; [|split; [exact HU4|split; [cbn [map fst snd]; rewrite HNs, HN, EX; reflexivity|cost_tac]]].
     intros f Hf. destruct f as [|f]; [lia|]. rewrite blk_eq. unfold bind at 1. rewrite H1. rewrite Hkt, Hnrb.
     unfold bind at 1. unfold starts_declaration. unfold bind at 1. rewrite H2. unfold ret at 1. cbn [okind_in]. rewrite Hkt, Hnds.
     unfold bind at 1. unfold bind at 1. rewrite (H3 f) by lia. unfold ret at 1. rewrite EN. cbn [stmt_to_items].
@@ -755,14 +755,14 @@ Proof.
   destruct (RoundTrip.Spell_app_inv P _ _ _ HS1) as [li [l2 [-> [HSi HS2]]]].
   destruct (RoundTrip.Spell_cons_inv P _ _ _ _ HS2) as [rb [l3 [-> [Hrk [_ HS3]]]]]. apply (RoundTrip.Spell_nil_inv P) in HS3. subst l3.
   cbn [app] in HU. rewrite <- app_assoc in HU. cbn [app] in HU.
-  destruct (disp_kw K_LBRACE s lb _ HU Hlk eq_refl) as [s1 [HU1 Hd]]. change (sclass K_LBRACE) with 2 in Hd. cbv iota in Hd.
+  destruct (disp_kw K_LBRACE s lb _ HU Hlk eq_refl) as [s1 [HU1 [HCd Hd]]]. change (sclass K_LBRACE) with 2 in Hd. cbv iota in Hd.
   assert (Hlbk: kind_eqb (tk lb) K_LBRACE = true) by (rewrite Hlk; reflexivity).
-  destruct (expect_up P s1 lb _ K_LBRACE HU1 Hlbk) as [s2 [H2 [HU2 _]]].
+  destruct (expect_up P s1 lb _ K_LBRACE HU1 Hlbk) as [s2 [H2 [HU2 HC2]]].
   assert (Hrbk: kind_eqb (tk rb) K_RBRACE = true) by (rewrite Hrk; reflexivity).
   destruct items as [|it items'].
   - cbn [map concat] in HSi. apply (RoundTrip.Spell_nil_inv P) in HSi. subst li. cbn [app] in HU2.
-    destruct (accept_hit P s2 rb _ K_RBRACE HU2 Hrbk) as [s3 [H3 [HU3 _]]].
-    exists 2, (mkN P C_Compound [VNone] (Some (mkCoord P (curfile P s3) (tp lb)))), s3. split; [|split; [exact HU3|reflexivity]].
+    destruct (accept_hit P s2 rb _ K_RBRACE HU2 Hrbk) as [s3 [H3 [HU3 HC3]]].
+    exists 2, (mkN P C_Compound [VNone] (Some (mkCoord P (curfile P s3) (tp lb)))), s3. split; [|split; [exact HU3|split; [reflexivity|cost_tac]]].
     intros f Hf. destruct f as [|[|f]]; try lia. rewrite Hd. rewrite (compound_eq P). unfold bind at 1. rewrite H2. unfold bind at 1. rewrite H3.
     unfold bind at 1. rewrite tcoord_eq. reflexivity.
   - (* the first token of the first item is not `}` *)
@@ -771,12 +771,12 @@ Proof.
       cbn [map concat fst snd] in HSi. rewrite Ek in HSi. cbn [app] in HSi. destruct (RoundTrip.Spell_cons_inv P _ _ _ _ HSi) as [t [tl [-> [Hkt [_ _]]]]].
       exists t, tl. split; [reflexivity|rewrite Hkt; exact (proj1 (proj2 (sstart_facts k Hsk)))]. }
     destruct Hfirst as [t [tl [El Hnrb]]]. rewrite El in HU2. cbn [app] in HU2.
-    destruct (accept_miss P s2 t _ K_RBRACE HU2 Hnrb) as [s3 [H3 [HU3 _]]].
+    destruct (accept_miss P s2 t _ K_RBRACE HU2 Hnrb) as [s3 [H3 [HU3 HC3]]].
     change (t :: tl ++ rb :: stop :: l0) with ((t :: tl) ++ rb :: stop :: l0) in HU3. rewrite <- El in HU3.
     assert (Hrk': tk rb = K_RBRACE) by exact Hrk.
-    destruct (blk_run (it :: items') HF s3 li rb (stop :: l0) HSi HU3 Hrk') as [f1 [Ns [s4 [H4 [HU4 HNs]]]]].
-    destruct (expect_up P s4 rb _ K_RBRACE HU4 Hrbk) as [s5 [H5 [HU5 _]]].
-    exists (S (S f1)), (mkN P C_Compound [VList Ns] (Some (mkCoord P (curfile P s5) (tp lb)))), s5. split; [|split; [exact HU5|unfold mkN; cbn [strip map]; rewrite HNs; reflexivity]].
+    destruct (blk_run (it :: items') HF s3 li rb (stop :: l0) HSi HU3 Hrk') as [f1 [Ns [s4 [H4 [HU4 [HNs HL4]]]]]].
+    destruct (expect_up P s4 rb _ K_RBRACE HU4 Hrbk) as [s5 [H5 [HU5 HC5]]].
+    exists (S (S f1)), (mkN P C_Compound [VList Ns] (Some (mkCoord P (curfile P s5) (tp lb)))), s5. split; [|split; [exact HU5|split; [unfold mkN; cbn [strip map]; rewrite HNs; reflexivity|cost_tac]]].
     intros f Hf. destruct f as [|[|f]]; try lia. rewrite Hd. rewrite (compound_eq P). unfold bind at 1. rewrite H2. unfold bind at 1. rewrite H3.
     unfold bind at 1. rewrite (H4 f) by lia. unfold bind at 1. rewrite H5. unfold bind at 1. rewrite tcoord_eq. reflexivity.
 Qed.
@@ -925,16 +925,37 @@ Proof.
     destruct items as [|y r]; exact HB.
 Qed.
 
-(* parse . generate = id, token level: every statement, as a block item and in a sub-statement position *)
+(* parse . generate = id, token level: every statement, as a block item and in a sub-statement position - with the
+   cost of the parse: exactly the generated tokens are consumed, next() is called at most three times per token *)
+Theorem parse_of_generated_statement_cost : forall x, swf x ->
+  forall (s: ParserBase.pstate P) le stop l0, RoundTrip.Spell P le (stoks rp x) -> StreamLib.Up P s (le ++ stop :: l0) ->
+  (sopen x = true -> kind_eqb (tk stop) K_ELSE = false) ->
+  exists f0 N s', (forall f, f0 <= f -> p_pragmacomp_or_statement P f s = Ok (N, s')) /\ StreamLib.Up P s' (stop :: l0) /\ strip N = embs x /\
+    StreamLib.Ran P s s' (length le).
+Proof. intros x Hw. apply s0_to_s; [apply shead_nopragma; apply stoks_head; exact Hw|exact (S_all (ssize x) x (le_n _) Hw)]. Qed.
+
+Theorem parse_of_generated_block_item_cost : forall x, swf x ->
+  forall (s: ParserBase.pstate P) le stop l0, RoundTrip.Spell P le (stoks rp x) -> StreamLib.Up P s (le ++ stop :: l0) ->
+  (sopen x = true -> kind_eqb (tk stop) K_ELSE = false) ->
+  exists f0 N s', (forall f, f0 <= f -> p_statement P f s = Ok (N, s')) /\ StreamLib.Up P s' (stop :: l0) /\ strip N = embs x /\
+    StreamLib.Ran P s s' (length le).
+Proof. intros x Hw. exact (S_all (ssize x) x (le_n _) Hw). Qed.
+
 Theorem parse_of_generated_statement : forall x, swf x ->
   forall (s: ParserBase.pstate P) le stop l0, RoundTrip.Spell P le (stoks rp x) -> StreamLib.Up P s (le ++ stop :: l0) ->
   (sopen x = true -> kind_eqb (tk stop) K_ELSE = false) ->
   exists f0 N s', (forall f, f0 <= f -> p_pragmacomp_or_statement P f s = Ok (N, s')) /\ StreamLib.Up P s' (stop :: l0) /\ strip N = embs x.
-Proof. intros x Hw. apply s0_to_s; [apply shead_nopragma; apply stoks_head; exact Hw|exact (S_all (ssize x) x (le_n _) Hw)]. Qed.
+Proof.
+  intros x Hw s le stop l0 HS HU Hop. destruct (parse_of_generated_statement_cost x Hw s le stop l0 HS HU Hop) as [f0 [N [s' [H [HU' [HN _]]]]]].
+  exists f0, N, s'. split; [exact H|split; [exact HU'|exact HN]].
+Qed.
 
 Theorem parse_of_generated_block_item : forall x, swf x ->
   forall (s: ParserBase.pstate P) le stop l0, RoundTrip.Spell P le (stoks rp x) -> StreamLib.Up P s (le ++ stop :: l0) ->
   (sopen x = true -> kind_eqb (tk stop) K_ELSE = false) ->
   exists f0 N s', (forall f, f0 <= f -> p_statement P f s = Ok (N, s')) /\ StreamLib.Up P s' (stop :: l0) /\ strip N = embs x.
-Proof. intros x Hw. exact (S_all (ssize x) x (le_n _) Hw). Qed.
+Proof.
+  intros x Hw s le stop l0 HS HU Hop. destruct (parse_of_generated_block_item_cost x Hw s le stop l0 HS HU Hop) as [f0 [N [s' [H [HU' [HN _]]]]]].
+  exists f0, N, s'. split; [exact H|split; [exact HU'|exact HN]].
+Qed.
 End MainS.
